@@ -1005,6 +1005,6 @@ EXPLORER_OPTS = {"quick": dict(max_paths=20000, max_decisions=200), "thorough": 
 def crosshair_targets(tier):
     f = str(Path(__file__).resolve().parent.parent / "crosshair" / "C15_namespaces.py")
     names = ["_remove_prefix_single", "_remove_prefix_without_namespace", "_remove_prefix_elementwise", "_remove_prefix_never_contains_separator",
-             "_split_join_round_trip", "_split_without_namespace", "_split_then_join",
+             "_split_join_round_trip", "_split_without_namespace", "_split_then_join", "_split_nested_namespace",
              "_update_namespaces_new_key", "_update_namespaces_same_key", "_update_namespaces_lists"]
     return [dict(file=f, function=n, timeout=30 if tier == "quick" else 60) for n in names]
